@@ -10,18 +10,22 @@ spec = {"filename": "/x/Toaster.dzn", "suffix": "Shell", "enc": [ids],
         "prefix": None | [ids]}
 sel  = "ALL" | "REMAINING" | "NONE" | [name, ...]   (ordered list -> set built in that order)
 """
-import contextlib
-import io
-
 import orjson
 
 from vf.to_json import to_json
 
 
+def silence():
+    """The parser print()s a line per skipped interface type; shadow that print in its module
+    (redirecting sys.stdout is not thread safe and the compile-based checks run in threads)."""
+    import dznpy.json_ast
+    dznpy.json_ast.print = lambda *a, **k: None
+
+
 def parse_model(model):
     from dznpy.json_ast import DznJsonAst
-    with contextlib.redirect_stdout(io.StringIO()):
-        return DznJsonAst(orjson.dumps(to_json(model))).process()
+    silence()
+    return DznJsonAst(orjson.dumps(to_json(model))).process()
 
 
 def mk_select(sel):
@@ -67,8 +71,8 @@ def build(spec, model=None, fc=None):
     if fc is None:
         fc = parse_model(model)
     cfg = mk_configuration(spec, fc)
-    with contextlib.redirect_stdout(io.StringIO()):
-        return Builder().build(cfg)
+    silence()
+    return Builder().build(cfg)
 
 
 def outcome(spec, model=None, fc=None):
